@@ -23,6 +23,7 @@ type tmplSite struct {
 	fn     *ast.FuncDecl
 	fnLit  *ast.FuncLit // innermost function literal enclosing the site, if any
 	pkg    *packages.Package
+	inst   bool // read as the instantiation of a builder helper at one of its call sites
 }
 
 func (s *tmplSite) fnName() string {
@@ -179,9 +180,9 @@ func collectTemplates(p *packages.Package) []*tmplSite {
 					}
 					return
 				case *ast.CallExpr:
-					if parent != nil && depth < 3 {
+					if depth < 3 {
 						if id := calleeIdent(x); id != nil {
-							if b := builders[p.TypesInfo.Uses[id]]; b != nil && b != fd {
+							if b := builders[p.TypesInfo.Uses[id]]; b != nil && b != fd && (parent != nil || len(x.Args) > 0) {
 								ev2 := env{}
 								k := 0
 								if b.Type.Params != nil {
@@ -228,7 +229,7 @@ func collectTemplates(p *packages.Package) []*tmplSite {
 						}
 						return
 					}
-					s := &tmplSite{lit: x, kind: kind, fields: map[string]ast.Expr{}, parent: parent, slot: slot, fn: fd, fnLit: fl, pkg: p}
+					s := &tmplSite{lit: x, kind: kind, fields: map[string]ast.Expr{}, parent: parent, slot: slot, fn: fd, fnLit: fl, pkg: p, inst: depth > 0}
 					sites = append(sites, s)
 					byLit[x] = append(byLit[x], s)
 					for _, e := range x.Elts {
@@ -255,6 +256,14 @@ func collectTemplates(p *packages.Package) []*tmplSite {
 							walk(y, nil, "", fl, ev, depth)
 							return false
 						}
+					case *ast.CallExpr:
+						// a builder called outside a template slot (its result handed to a function): instantiated all the same
+						if id := calleeIdent(y); id != nil && len(y.Args) > 0 && depth < 3 {
+							if b := builders[p.TypesInfo.Uses[id]]; b != nil && b != fd {
+								walk(y, nil, "", fl, ev, depth)
+								return false
+							}
+						}
 					}
 					return true
 				})
@@ -265,13 +274,13 @@ func collectTemplates(p *packages.Package) []*tmplSite {
 	// a builder that was instantiated at its call sites is not also a template of its own (its parameters are not names)
 	instantiated := map[*ast.CompositeLit]bool{}
 	for _, s := range sites {
-		if s.parent != nil {
+		if s.parent != nil || s.inst {
 			instantiated[s.lit] = true
 		}
 	}
 	var out []*tmplSite
 	for _, s := range sites {
-		if s.parent == nil && instantiated[s.lit] && builders[p.TypesInfo.Defs[s.fn.Name]] != nil {
+		if s.parent == nil && !s.inst && instantiated[s.lit] && builders[p.TypesInfo.Defs[s.fn.Name]] != nil {
 			// the uninstantiated reading of a builder's top literal: dropped together with what hangs below it
 			continue
 		}
